@@ -1,3 +1,12 @@
+# source of the sender's retry/escalation decision code, as printed by harness/extract/c19.go;
+# Model/ClusterSender.lean (sendFunc, recvFinal, direct) is its hand transcription: when this changes,
+# revisit the Lean transcription first, then this expectation.
+EXPECTED_SENDER_FACTS = {
+    "c19_sendFunc": "{ maxRetries := 0 for { err := sendFuncOnce(shouldInTransaction, shouldUpdateCP, lastOffset) if err == nil { return err } if replayWait.IsClosed() { return err } maxRetries++ if errors.Is(err, common.ErrMove) || errors.Is(err, common.ErrAsk) || errors.Is(err, common.ErrCrossSlots) { if ro.cfg.CanTransaction && ro.cfg.Redis.IsCluster() { return handleDirectError(err) } if maxRetries < 3 { replayWait.Sleep(1 * time.Second) continue } err = handleDirectError(err) ro.logger.Errorf(\"send error : error(%v), offset(%d)\", err, lastOffset) return err } else if isPipeline { if maxRetries < 3 { replayWait.Sleep(1 * time.Second) continue } ro.logger.Errorf(\"send error : error(%v), offset(%d)\", err, lastOffset) } return err } }",
+    "c19_handleError": "{ if errors.Is(err, common.ErrMove) || errors.Is(err, common.ErrAsk) || errors.Is(err, common.ErrCrossSlots) { if ro.cfg.CanTransaction && ro.cfg.Redis.IsCluster() { err = handleDirectError(err) } ro.logger.Errorf(\"send error : error(%v), offset(%d)\", err, bat.offset) } failCounter.Add(float64(bat.cmdCounter), ro.cfg.InputName) batchSendCounter.Add(1, ro.cfg.InputName, transactionLabel, \"error\") replayWait.Close(err) }",
+    "c19_handleDirectError": "{ if errors.Is(err, common.ErrMove) || errors.Is(err, common.ErrAsk) { return errors.Join(ErrRedisTypologyChanged, err) } if errors.Is(err, common.ErrCrossSlots) { return errors.Join(ErrBreak, err) } return err }"
+}
+
 PROP = {
     "lean_modules": ["GunYu.Props.C19"],
     "audit_namespaces": ["GunYu.Props.C19"],
@@ -12,9 +21,11 @@ PROP = {
         "GunYu.Props.C19.txn_sequential_order",
         "GunYu.Props.C19.per_key_order_stmt_false",
         "GunYu.Props.C19.txn_cluster_redirect_sent_once",
+        "GunYu.Props.C19.txn_blocking_sent_once",
+        "GunYu.Props.C19.recv_path_reports",
         "GunYu.Props.C19.sender_sends_at_most_three",
     ],
-    "expected_facts": {},
+    "expected_facts": EXPECTED_SENDER_FACTS,
     "harness": [{"name": "C19", "pkg": "./pkg/redis/client/cluster/", "test": "TestVerifC19",
                  "timeout_quick": "5m", "timeout_thorough": "30m"},
                 {"name": "C19out", "pkg": "./syncer/", "test": "TestVerifC19Out",
@@ -56,6 +67,21 @@ PROP = {
         "D22 recorded finding); traces of the current code that violate it are reported as `reject route-split` by both sides",
     ],
     "partial": [
+        "transactional + PIPELINED sender and a non-redirect error returned by Dispatch itself: sendFunc dispatches the batch again "
+        "(example in Props/C19.lean: sendFunc <true,true> [other, ok] = 2 sends); no double execution follows only because batch2.Dispatch "
+        "of a one-node batch fails before anything is submitted (Put error / closed node pipeline) - argued from the code, not proved, "
+        "not reachable by the fault injection (faults surface at Receive)",
+        "no cross-segment theorem: each segment (between two sender re-sends/restarts) is ordered on its own; that a re-send repeats a "
+        "suffix and never skips is checked on the real sender by the C19out monitor only (plain mode with redirect following switched off, "
+        "re-sent batches) - the model's `restart` does not constrain what is put next",
+        "the transaction system T* models txnBatcher (used by bisync); the transactional path of sendCmdsBatch goes through Batch/batch2 with "
+        "Put(multi)/Put(exec) that the cluster client drops (one-node constraint, no atomicity): covered by the PLAIN system on traces of the "
+        "harness modes stxn/stxnpipe and by C19out, with no theorem of its own about the one-node constraint",
+        "executed_at_owner is a lemma about the server model (a node only executes what it serves), unexecuted_blocks_ok and "
+        "txn_mode_no_double_execution restate admissibility guards of the model through the bookkeeping invariants: the client's obligations "
+        "are those guards, checked on the code by trace membership only",
+        "liveness is out of scope: unbounded handleMove recursion, update() rejecting partial CLUSTER SLOTS coverage, delays beyond a read "
+        "timeout (the cluster client of NewRedisCluster sets none)",
         "per_key_order: proved as per_key_order_partial under QuietRun; the unconditional statement is false in the model "
         "(per_key_order_stmt_false, ping-pong of a slot inside one pipeline)",
         "per-key order of pipelined transactions (txnpipe, window>1) is not a theorem: only sequential use (txn_sequential_order); "
